@@ -73,6 +73,12 @@ func TestC20Baseline(t *testing.T) {
 	opts := fstest.FSOptions{Name: "baseline", TestFS: func(tb testing.TB) fstest.SetupFS { return New("", &fired) }}
 	fstest.FS(t, opts)
 	fstest.File(t, opts)
+	// the wrapper that also lists by name at the FS level, without deviation
+	t.Run("fs-readdir", func(t *testing.T) {
+		ropts := fstest.FSOptions{Name: "baseline-fsreaddir", TestFS: func(tb testing.TB) fstest.SetupFS { return NewFS("FSReadDir:none", &fired).(fstest.SetupFS) }}
+		fstest.FS(t, ropts)
+		fstest.File(t, ropts)
+	})
 	// the same with prefixed error paths under AllowErrPathPrefix: must be accepted as well
 	t.Run("prefixed", func(t *testing.T) {
 		popts := fstest.FSOptions{Name: "baseline-prefixed", Constraints: fstest.Constraints{AllowErrPathPrefix: true}, TestFS: func(tb testing.TB) fstest.SetupFS { return New("@prefix", &fired) }}
@@ -93,7 +99,7 @@ func TestC20Deviants(t *testing.T) {
 		t.Run(strings.ReplaceAll(dev, ":", "."), func(t *testing.T) {
 			fired := new(int64)
 			t.Cleanup(func() { fmt.Printf("C20FIRED %s %d\n", dev, *fired) })
-			opts := fstest.FSOptions{Name: "dev", TestFS: func(tb testing.TB) fstest.SetupFS { return New(dev, fired) }}
+			opts := fstest.FSOptions{Name: "dev", TestFS: func(tb testing.TB) fstest.SetupFS { return NewFS(dev, fired).(fstest.SetupFS) }}
 			if strings.HasSuffix(dev, "@prefix") {
 				opts.Constraints.AllowErrPathPrefix = true
 			}
